@@ -210,6 +210,33 @@ theorem runWhole_final (cfg : Cfg) (s : List UInt8) : (runWhole cfg s).final ≠
   unfold runWhole
   exact interp_total cfg _ _ _ (parseAll_wf cfg.hasEx (s.length + 1) s (by omega)).2
 
+theorem interp_not_cbErr (cfg : Cfg) : ∀ (rs : List Rec) (t : Tail) (rd : Reader),
+    (interp cfg rd rs t).final ≠ .cbErr := by
+  intro rs
+  induction rs with
+  | nil =>
+    intro t rd
+    unfold interp
+    cases t <;> simp <;> (split <;> simp)
+  | cons r rs ih =>
+    intro t rd
+    unfold interp
+    cases hp : preAll 4 rd r.kind with
+    | mk its pe =>
+      cases pe with
+      | stuck => simp
+      | err e rd2 => simp
+      | ready rd2 =>
+        simp only
+        cases hpost : rd2.post cfg r.item with
+        | finished rd3 => simp
+        | err e rd3 => simp
+        | oom rd3 => simp
+        | item it rd3 => simp only; exact ih t rd3
+
+theorem runWhole_not_cbErr (cfg : Cfg) (s : List UInt8) : (runWhole cfg s).final ≠ .cbErr :=
+  interp_not_cbErr cfg _ _ _
+
 /-- `PLAYER_NEW`/`INPUT_NEW` records ask for table slot `cid`. -/
 def cidOk (n : Nat) : FItem → Bool
   | .playerNew c _ _ => decide (c.toNat < n)
